@@ -4,6 +4,7 @@ import (
 	"crypto/sha256"
 	"encoding/hex"
 	"encoding/json"
+	"errors"
 	"flag"
 	"fmt"
 	"os"
@@ -151,6 +152,9 @@ func newPool() *purityPool {
 		panic(err)
 	}
 	p.models["m_rw_cycle"] = cyc
+	// files without a module header: every "file is not a module" error names ITS file, also after later calls
+	p.files["f_notmodule_a"] = []transformer.ModuleFile{mods[0], {Name: "legacy-a.fga", Contents: "model\n  schema 1.1\n\ntype plain\n"}}
+	p.files["f_notmodule_b"] = []transformer.ModuleFile{{Name: "old/b.fga", Contents: "model\n  schema 1.1\n\ntype bare\n\ncondition k(x: int) {\n  x < 1\n}\n"}, mods[1], {Name: "c.fga", Contents: "model\n  schema 1.1\ntype other\n"}}
 	p.files["f_ok"] = mods
 	p.files["f_conflict"] = poolConflict()
 	return p
@@ -250,6 +254,24 @@ func keep(f func() string) {
 	}
 }
 
+// mergeErrFields spells out the fields of the errors TransformModuleFilesToModel returned (Error() leaves the file out)
+func mergeErrFields(err error) string {
+	var me *transformer.ModuleValidationMultipleError
+	if !errors.As(err, &me) {
+		return ""
+	}
+	out := []string{}
+	for _, e := range me.Errors {
+		var se *transformer.ModuleTransformationSingleError
+		if errors.As(e, &se) {
+			out = append(out, fmt.Sprintf("%s:%d:%d:%s", se.File, se.Line.Start, se.Column.Start, se.Msg))
+		} else {
+			out = append(out, "other:"+e.Error())
+		}
+	}
+	return strings.Join(out, ";")
+}
+
 // execOp runs one operation on an object and returns a digest of everything observable about the result.
 func execOp(op string, text string, model *openfgav1.AuthorizationModel, files []transformer.ModuleFile) (res string) {
 	defer func() {
@@ -339,7 +361,10 @@ func execOp(op string, text string, model *openfgav1.AuthorizationModel, files [
 	case "merge":
 		m, err := transformer.TransformModuleFilesToModel(files, "1.2")
 		if err != nil {
-			return digest("err", errText(err))
+			// everything a caller can read from the returned error: the text and, per conflict, file / line / column / message
+			full := func() string { return errText(err) + "|" + mergeErrFields(err) }
+			keep(full)
+			return digest("err", full())
 		}
 		b, _ := json.Marshal(absModel(m, false))
 		return digest("ok", string(b))
